@@ -359,15 +359,42 @@ class Analysis:
                 for st in meth.stmts:
                     if st[0] == "ret":
                         ret = max(ret, kk(st[1]))
-                    elif st[0] == "write" and kk(st[1]) != FRESH:
+                    elif st[0] == "write" and kk(st[1]) == FRS:
                         wr = True
                     elif (st[0] == "call" and self.methods[st[2]].writes_recv
-                          and kk(st[3]) != FRESH):
+                          and kk(st[3]) == FRS):
                         wr = True
                 meth.kinds = dict((x, kk(x)) for x in meth.desc)
                 if ret != meth.ret or wr != meth.writes_recv:
                     meth.ret, meth.writes_recv = max(ret, meth.ret), (wr or meth.writes_recv)
                     changed = True
+
+    def uncertifiable(self):
+        """Diagnostics only: what Lean's `allOk` will reject, root causes first."""
+        roots, derived = [], []
+        for meth in self.methods:
+            for st in meth.stmts:
+                if st[0] == "write" and meth.kinds.get(st[1]) == ANY:
+                    roots.append("%s writes through `%s`, which it did not allocate" % (
+                        meth.name, meth.desc.get(st[1])))
+                elif st[0] == "write" and meth.kinds.get(st[1]) == FRS and meth.pub:
+                    roots.append("%s is public and writes through `%s` (its receiver, or a "
+                                 "value that may be its receiver)" % (
+                                     meth.name, meth.desc.get(st[1])))
+                elif (st[0] == "call" and self.methods[st[2]].writes_recv
+                      and meth.kinds.get(st[3]) != FRESH):
+                    text = "%s calls the mutator %s on `%s`" % (
+                        meth.name, self.methods[st[2]].name, meth.desc.get(st[3]))
+                    if not self.methods[st[2]].pub and (
+                            meth.pub or meth.kinds.get(st[3]) == ANY):
+                        roots.append(text)
+                    elif meth.pub or meth.kinds.get(st[3]) == ANY:
+                        derived.append(text)
+        out = []
+        for item in roots + derived:
+            if item not in out:
+                out.append(item)
+        return out, len(roots)
 
     # -- checks on the surrounding code ----------------------------------------------------------
     def post_checks(self):
@@ -1260,10 +1287,14 @@ def main(argv):
     changed = common.write_if_changed(path, text)
     an = analyse()
     nst = sum(len(meth.stmts) for meth in an.methods)
-    bad = [meth.name for meth in an.methods if meth.pub and meth.writes_recv]
-    print("gen_effects: %d methods, %d statements, %s%s" % (
-        len(an.methods), nst, "regenerated Gen/Effects.lean" if changed else "unchanged",
-        "; public methods inferred to write their receiver: %s" % bad if bad else ""))
+    bad, nroots = an.uncertifiable()
+    print("gen_effects: %d methods, %d statements, %s" % (
+        len(an.methods), nst, "regenerated Gen/Effects.lean" if changed else "unchanged"))
+    for item in bad[:max(6, min(nroots, 12))]:
+        print("gen_effects: allOk will fail: " + item)
+    if len(bad) > max(6, min(nroots, 12)):
+        print("gen_effects: ... and %d consequential rejections" % (
+            len(bad) - max(6, min(nroots, 12))))
     return 0
 
 
